@@ -126,6 +126,9 @@ type sessionCase struct {
 	// the to attribute of the peer's clear-text response header: "" (none),
 	// "own" (the client's address) or "foreign" (somebody else's, in another domain)
 	hdrTo string
+	// the server the session connects to ("" = the domain of its own address, or
+	// a host in another domain: hosted service, server-to-server)
+	location string
 	// beforeProceed, when set, is called by the peer after it has read the
 	// client's <starttls/> and before it answers <proceed/> (used to overlap
 	// several sessions that share one feature value)
@@ -144,7 +147,7 @@ func (tc tcase) String() string {
 	var sb strings.Builder
 	fmt.Fprintf(&sb, "StartTLS(cfg nil=%v) reused for %d sessions (one Negotiator value for all: %v):", tc.nilCfg, len(tc.sessions), tc.sharedNeg)
 	for i, s := range tc.sessions {
-		fmt.Fprintf(&sb, "\n  session %d: domain=%s first-list=%s answer=%s after-proceed=%s honest-after-tls=%v tee=%v extra-double=%v clear-header-to=%q", i, s.domain, s.first, s.answer, s.after, s.honest, s.tee, s.extraDbl, s.hdrTo)
+		fmt.Fprintf(&sb, "\n  session %d: domain=%s first-list=%s answer=%s after-proceed=%s honest-after-tls=%v tee=%v extra-double=%v clear-header-to=%q location=%q", i, s.domain, s.first, s.answer, s.after, s.honest, s.tee, s.extraDbl, s.hdrTo, s.location)
 	}
 	return sb.String()
 }
@@ -166,6 +169,7 @@ func genCase(t *rapid.T) tcase {
 			tee:      rapid.Bool().Draw(t, "tee"),
 			extraDbl: rapid.IntRange(0, 3).Draw(t, "extra") == 0,
 			hdrTo:    rapid.SampledFrom([]string{"", "", "own", "own", "foreign"}).Draw(t, "hdrTo"),
+			location: rapid.SampledFrom([]string{"", "", "xmpp.hosting.example.org"}).Draw(t, "location"),
 		})
 	}
 	return tc
@@ -239,6 +243,9 @@ func readUntil(p *peerEnd, acc *[]byte, pred func([]byte) bool) bool {
 type sharedNeg struct {
 	neg xmpp.Negotiator
 	cfg func() xmpp.StreamConfig
+	// feats, when set, is the one feature slice every session's configuration
+	// returns (an application that builds its feature list once)
+	feats []xmpp.StreamFeature
 }
 
 func newSharedNeg() *sharedNeg {
@@ -266,9 +273,19 @@ func runSessionNeg(sc sessionCase, feature xmpp.StreamFeature, forceTee *bool, s
 		useTee = *forceTee
 	}
 	local := jid.MustParse("juliet@" + sc.domain + "/balcony")
+	peerFrom := sc.domain
+	if sc.location != "" {
+		peerFrom = sc.location
+	}
 	feats := []xmpp.StreamFeature{feature, xmpp.SASL("", "secret", sasl.Plain), xmpp.BindResource()}
 	if sc.extraDbl {
 		feats = append(feats, secureDouble())
+	}
+	if shared != nil {
+		if shared.feats == nil {
+			shared.feats = feats
+		}
+		feats = shared.feats
 	}
 	var peerWG sync.WaitGroup
 	peerWG.Add(1)
@@ -289,12 +306,12 @@ func runSessionNeg(sc sessionCase, feature xmpp.StreamFeature, forceTee *bool, s
 			return
 		}
 		// 2. first features list
-		hdr1 := header(sc.domain)
+		hdr1 := header(peerFrom)
 		switch sc.hdrTo {
 		case "own":
-			hdr1 = headerTo(sc.domain, local.String())
+			hdr1 = headerTo(peerFrom, local.String())
 		case "foreign":
-			hdr1 = headerTo(sc.domain, "alice@evil.example")
+			hdr1 = headerTo(peerFrom, "alice@evil.example")
 		}
 		starttls := `<starttls xmlns="` + tlsNS + `"/>`
 		mechs := `<mechanisms xmlns="` + saslNS + `"><mechanism>PLAIN</mechanism></mechanisms>`
@@ -365,7 +382,7 @@ func runSessionNeg(sc sessionCase, feature xmpp.StreamFeature, forceTee *bool, s
 			return
 		case "tls-inject":
 			// classic STARTTLS injection: forged plaintext pipelined behind <proceed/>
-			feedClear(proceed + header(sc.domain) + `<stream:features>` + mechs + `</stream:features>`)
+			feedClear(proceed + header(peerFrom) + `<stream:features>` + mechs + `</stream:features>`)
 		default:
 			feedClear(proceed)
 		}
@@ -415,13 +432,13 @@ func runSessionNeg(sc sessionCase, feature xmpp.StreamFeature, forceTee *bool, s
 			return
 		}
 		if !sc.honest {
-			srv.Write([]byte(header(sc.domain) + `<stream:features/>`))
+			srv.Write([]byte(header(peerFrom) + `<stream:features/>`))
 			// an empty list over TLS: the client may legitimately become ready
 			time.Sleep(time.Millisecond)
 			return
 		}
 		// honest SASL + bind
-		srv.Write([]byte(header(sc.domain) + `<stream:features>` + mechs + `</stream:features>`))
+		srv.Write([]byte(header(peerFrom) + `<stream:features>` + mechs + `</stream:features>`))
 		prot = nil
 		for !bytes.Contains(prot, []byte("</auth>")) {
 			n, err := srv.Read(buf)
@@ -441,7 +458,7 @@ func runSessionNeg(sc sessionCase, feature xmpp.StreamFeature, forceTee *bool, s
 				return
 			}
 		}
-		srv.Write([]byte(header(sc.domain) + `<stream:features><bind xmlns="` + bindNS + `"/></stream:features>`))
+		srv.Write([]byte(header(peerFrom) + `<stream:features><bind xmlns="` + bindNS + `"/></stream:features>`))
 		prot = nil
 		for !bytes.Contains(prot, []byte("</iq>")) {
 			n, err := srv.Read(buf)
@@ -476,7 +493,11 @@ func runSessionNeg(sc sessionCase, feature xmpp.StreamFeature, forceTee *bool, s
 				shared.cfg = build
 				neg = shared.neg
 			}
-			s, res.err = xmpp.NewSession(context.Background(), local.Domain(), local, conn, 0, neg)
+			loc := local.Domain()
+			if sc.location != "" {
+				loc = jid.MustParse(sc.location)
+			}
+			s, res.err = xmpp.NewSession(context.Background(), loc, local, conn, 0, neg)
 		})
 	}()
 	select {
